@@ -10,6 +10,31 @@ TRUST = ("trusts the Go type checker, go/cfg, go/ssa, the documented semantics o
 
 # property id -> (claimed text, technique, design_ref)   (only built properties appear here)
 CLAIMS = {
+    "C01": (
+        "Decides three structural necessary conditions of 'rounding happens only at the documented points': every sum seeded with the "
+        "currency's zero (line sums, breakdowns, discount/charge sums, advances, payment lines, tax bases, category, surcharge and tax sums) "
+        "raises its precision to each addend first, and tax rate rows are created with the currency zero, not a line-derived precision; "
+        "every amount of bill.Totals that the pass assigns is rescaled by Totals.round and cleared by Totals.reset, Totals.round only "
+        "rescales, and tax.Total.round rescales every amount leaf of the summary for every row; in each calculation pass nothing but "
+        "rounding, setters and return follows the first rounding-only call. Not decided: precision constants, exactness of each product "
+        "(C05), the full-minor-unit bound, exchange-rate values.",
+        "static analysis: accumulator idiom check with zero-seed provenance, field coverage of the rounding/reset walkers, statement-order rule with derived rounding-only functions",
+        "§4 C01"),
+    "C02": (
+        "Decides: both rate-group matching functions, interpreted as boolean functions over every combination of nil/non-nil percent and "
+        "surcharge and equal/unequal country, extensions, percent and surcharge (100 feasible rows each), equal the specified group identity and "
+        "dereference no nil; a new row copies the identity fields from the combo; the retained branch of the tax total mirrors the ordinary one "
+        "with Subtract, surcharges included; the tax accumulators raise precision to each addend; the included tax is taken out of every line "
+        "having that category with a percentage, with that combo's own percentage. Not decided: amount = percent of base, the sums.",
+        "static analysis: exhaustive abstract interpretation of the matching predicates, mirror-branch comparison, accumulator rule, every-iteration rule",
+        "§4 C02"),
+    "C17": (
+        "Decides necessary conditions only (the symmetry relations compare two calculations and are not decided): every amount operation rounds "
+        "with math.Round, an odd function, so rounding commutes with negation; every zero-seeded accumulator raises its precision to each "
+        "addend and rate rows are created with the currency zero, so sums do not depend on row order; removing included taxes records old "
+        "minus new total with tax in the rounding field and recalculates. Not decided: which inputs Invoice.Invert negates.",
+        "static analysis: rounding-primitive inventory (shared with C05), accumulator rule (shared with C01), def-use of the rounding residue",
+        "§4 C17"),
     "C07": (
         "Decides for package c14n: success of the reader requires a further Token() found to be io.EOF, EOF inside a value is an error, "
         "and the reader never succeeds with a nil value; separators written after skippable elements do not depend on the range index; "
